@@ -93,27 +93,50 @@ def to_tokens(s):
     return [("bstr", s)]
 
 
+def _sym_concat(a, b):
+    """byte-level concatenation of two bounded strings with symbolic lengths"""
+    n = len(a.bytes) + len(b.bytes)
+    if n > 16:
+        raise Unsupported("symbolic string longer than 16 bytes")
+    la = a.len_term()
+    out = []
+    for k in range(n):
+        e = z3.BitVecVal(0, 8)
+        for j in range(len(b.bytes) - 1, -1, -1):
+            if k - j >= 0:
+                e = z3.If(la == I(k - j), b.bytes[j], e)
+        if k < len(a.bytes):
+            e = z3.If(z3.UGT(la, I(k)), a.bytes[k], e)
+        out.append(e)
+    return BStr(la + b.len_term(), out)
+
+
 def str_concat(a, b):
-    if isinstance(a, BStr) and isinstance(b, BStr):
-        if isinstance(a.len, int) and isinstance(b.len, int):
-            return BStr(a.len + b.len, a.bytes[: a.len] + b.bytes[: b.len])
-        if isinstance(a.len, int):
-            return BStr(I(a.len) + b.len_term(), a.bytes[: a.len] + b.bytes)
-        n = len(a.bytes) + len(b.bytes)
-        if n <= 12:
-            la = a.len_term()
-            out = []
-            for k in range(n):
-                # byte k is a[k] if k < la else b[k - la]
-                e = z3.BitVecVal(0, 8)
-                for j in range(len(b.bytes) - 1, -1, -1):
-                    # k - la == j
-                    e = z3.If(la == I(k - j), b.bytes[j], e) if k - j >= 0 else e
-                if k < len(a.bytes):
-                    e = z3.If(z3.UGT(la, I(k)), a.bytes[k], e)
-                out.append(e)
-            return BStr(la + b.len_term(), out)
+    """concrete-length operands merge into one bounded string; anything else stays a token list (rendering)"""
+    if isinstance(a, BStr) and isinstance(b, BStr) and isinstance(a.len, int) and isinstance(b.len, int):
+        return BStr(a.len + b.len, a.bytes[: a.len] + b.bytes[: b.len])
     return TStr(to_tokens(a) + to_tokens(b))
+
+
+def flatten(s):
+    """TStr made only of literal text and bounded strings -> one bounded string (for comparisons)"""
+    if isinstance(s, BStr):
+        return s
+    acc = BStr(0, [])
+    for t in s.toks:
+        if t[0] == "lit":
+            nxt = BStr.lit(t[1])
+        elif t[0] == "bstr":
+            nxt = t[1]
+        else:
+            raise Unsupported("comparison of a string containing a rendered number")
+        if isinstance(acc.len, int) and isinstance(nxt.len, int):
+            acc = BStr(acc.len + nxt.len, acc.bytes[: acc.len] + nxt.bytes[: nxt.len])
+        elif isinstance(acc.len, int):
+            acc = BStr(I(acc.len) + nxt.len_term(), acc.bytes[: acc.len] + nxt.bytes)
+        else:
+            acc = _sym_concat(acc, nxt)
+    return acc
 
 
 def _byte(s, k):
@@ -127,7 +150,7 @@ def str_eq(a, b):
         if len(ta) == len(tb) and all(x[0] == y[0] and (x[1] is y[1] or (x[0] == "lit" and x[1] == y[1]) or
                                                           (x[0] in ("itoa", "ftoa") and z3.eq(x[1], y[1]))) for x, y in zip(ta, tb)):
             return z3.BoolVal(True)
-        raise Unsupported("equality of rendered strings")
+        a, b = flatten(a), flatten(b)
     n = max(len(a.bytes), len(b.bytes))
     la, lb = a.len_term(), b.len_term()
     conj = [la == lb]
@@ -138,8 +161,7 @@ def str_eq(a, b):
 
 def str_lt(a, b, or_equal):
     """lexicographic byte order a < b (or a <= b)"""
-    if isinstance(a, TStr) or isinstance(b, TStr):
-        raise Unsupported("ordering of rendered strings")
+    a, b = flatten(a), flatten(b)
     n = max(len(a.bytes), len(b.bytes))
     la, lb = a.len_term(), b.len_term()
     # first position k where they differ or one ends
@@ -507,15 +529,11 @@ class Machine:
             x = ex(ld(st, a[1]), "Float")
             sto(st, a[0], Val("String", st.alloc(("String", TStr([("ftoa", x)])))))
         elif name == "StringCountBytes":
-            s = self.str_of(st, ld(st, a[1]))
-            if isinstance(s, TStr):
-                raise Unsupported("length of a rendered string")
+            s = flatten(self.str_of(st, ld(st, a[1])))
             sto(st, a[0], vint(s.len_term()))
         elif name == "StringNthByte":
             n = ex(ld(st, a[2]), "Int")
-            s = self.str_of(st, ld(st, a[1]))
-            if isinstance(s, TStr):
-                raise Unsupported("byte of a rendered string")
+            s = flatten(self.str_of(st, ld(st, a[1])))
             if self.feasible(st.cond + [z3.Or(n < I(0), n >= s.len_term())]):
                 raise InternalFault("StringNthByte index can be out of range at pc %d (host panic)" % self.cur_pc)
             e = z3.BitVecVal(0, 8)
